@@ -85,6 +85,11 @@ func drawL0Config(rt *rapid.T, kind sim.Kind) l0Config {
 	if cfg.WideFirst {
 		cfg.SoloRun = rapid.IntRange(0, 25).Draw(rt, "solorun")
 	}
+	if rapid.IntRange(0, 3).Draw(rt, "manytx") == 0 {
+		// a quarter of the histories: a fifth more of the steps are transactions (a third of which fail), so that a
+		// replica goes through several rollbacks with ordinary operations in between
+		cfg.TxPct = 20
+	}
 	return cfg
 }
 
